@@ -309,6 +309,7 @@ class Interpreter(BaseInterpreter[TContext, TEvent]):
 
         logger.info("🛑 Gracefully stopping interpreter '%s'...", self.id)
         self.status = "stopped"
+        self._unregister_from_system()
 
         # 🔔 Notify plugins of the impending shutdown.
         for plugin in self._plugins:
